@@ -201,6 +201,34 @@ def gen_tasklist(rng, count, caps=None):
         lines.append("tl %d : %s" % (cap, " ; ".join(ops)))
     return lines
 
+def enum_tasklist(cap, length):
+    """every in-contract operation sequence of the given length over emplace / remove(occupied slot) / clear for a small capacity;
+    which slots are occupied is tracked with the free-list discipline of the real list (most recently freed slot first, then fresh slots)"""
+    import itertools
+    out = []
+    def rec(ops, occ, free, last, left):
+        if left == 0:
+            out.append("tl %d : %s" % (cap, " ; ".join(ops))); return
+        # emplace (also when full: must be refused)
+        if len(occ) < cap:
+            if free: i = free[-1]; nf = free[:-1]; nl = last
+            else: i = last; nf = free; nl = last + 1
+            rec(ops + ["emp %d %d" % (len(ops) % 5, (len(ops) + 1) % 5)], occ | {i}, nf, nl, left - 1)
+        else:
+            rec(ops + ["emp 7 7"], occ, free, last, left - 1)
+        for i in sorted(occ):
+            rec(ops + ["rem %d" % i], occ - {i}, free + [i], last, left - 1)
+        if left >= 2: rec(ops + ["clear"], set(), [], 0, left - 1)
+    rec([], set(), [], 0, length)
+    return out
+
+def enum_bitarray(cap, length):
+    """every operation sequence of the given length over a small alphabet (set/clear of the boundary indices, set-all, clear-all, and-assign)"""
+    import itertools
+    idx = sorted(set([0, cap - 1, min(7, cap - 1), min(8, cap - 1)]))
+    alpha = ["set %d" % i for i in idx] + ["clr %d" % i for i in idx] + ["setall", "clrall", "and %d" % idx[-1], "andall"]
+    return ["ba %d : %s" % (cap, " ; ".join(seq)) for seq in itertools.product(alpha, repeat=length)]
+
 def run_units(binary, lines, wrapper=()):
     text = "\n".join(lines) + "\n"
     rc, out, err = common.run_proc(list(wrapper) + [binary], text, timeout=120)
